@@ -1,5 +1,6 @@
 import AmaranthVerif.Proofs.Lowering
 import AmaranthVerif.Proofs.AssignBits5
+import AmaranthVerif.Proofs.ProcessSpec
 
 /-!
 # C02 — assignments and control flow: last active assignment wins, per bit
@@ -27,8 +28,15 @@ Proved here, for every program of any nesting and every state (`EnvOk`):
 * `statements_spec`: executing the lowered statements of a whole program equals applying the Spec's
   writes (last active write wins, per bit) — `lowering_sound` composed with `assign_bits`.
 
-Not proved for all inputs (compared on every run): the per-signal commit masks of a process
-(`LHSMaskCollector`) equal the Spec's "driven bits" — `process_spec`.
+* `process_commit`: a compiled process runs its statements on private copies and commits them through the
+  static bit masks of `LHSMaskCollector`. The masks cover every location an assignment in the process can
+  address in any state (`lhsMask_covers`), so after the commit every bit an active assignment wrote holds the
+  last value written to it, every other masked bit holds what the process started from, and every unmasked bit
+  of every signal is as the other processes left it. `sync_process_writes`: hence a synchronous process (which
+  starts from the current values) changes the shared state by exactly its active writes.
+
+Not proved for all inputs (compared on every run): that the masked bits are *only* the statically driven ones
+(the Spec's `progDrives`; the masks over-approximate below part-selects by construction).
 -/
 
 namespace Amaranth.C02
@@ -77,6 +85,31 @@ theorem statements_spec (ctx : Ctx) (cur : Env) (hok : EnvOk ctx cur) (prog : Li
   rw [lowering_sound ctx cur hok prog h nxt]
   exact (applyWritesRtl_eq_spec ctx cur hok _ ht nxt hE).1
 
+/-- What a compiled process does to the shared state (any statements, any starting copy `start`, any state `acc`
+left by the other processes): written bits hold the last value written, other masked bits their value in `start`,
+unmasked bits their value in `acc`. -/
+theorem process_commit (ctx : Ctx) (cur : Env) (hok : EnvOk ctx cur) (body : Stmt) (start acc : Env)
+    (hS : EnvN ctx start) (hA : EnvN ctx acc)
+    (htg : ∀ e ∈ stmtTargets body, e.twf ctx = true ∧ e.noAlias ctx cur) :
+    EnvN ctx (commitInto ctx body (execRtl ctx cur body start) acc) ∧
+    ∀ i b, i < ctx.length → b < (ctx.shape i).width →
+      bitAt (commitInto ctx body (execRtl ctx cur body start) acc) i b =
+        match wbit ctx cur (stmtWrites ctx cur body) i b with
+        | some x => x
+        | none =>
+          if ibit ((stmtMask ctx body (List.replicate ctx.length 0)).get i) b then bitAt start i b else bitAt acc i b :=
+  process_bits ctx cur hok body start acc hS hA htg
+
+/-- A synchronous process changes the shared state by exactly its active writes (last one wins per bit), provided
+no other process has touched the bits it drives (one driver per bit: C06). -/
+theorem sync_process_writes (ctx : Ctx) (cur : Env) (hok : EnvOk ctx cur) (body : Stmt) (acc : Env)
+    (hC : EnvN ctx cur) (hA : EnvN ctx acc)
+    (htg : ∀ e ∈ stmtTargets body, e.twf ctx = true ∧ e.noAlias ctx cur)
+    (hown : ∀ i b, i < ctx.length → b < (ctx.shape i).width →
+      ibit ((stmtMask ctx body (List.replicate ctx.length 0)).get i) b = true → bitAt acc i b = bitAt cur i b) :
+    commitInto ctx body (execRtl ctx cur body cur) acc = applyWrites ctx cur (stmtWrites ctx cur body) acc :=
+  sync_process_effect ctx cur hok body acc hC hA htg hown
+
 /-! ### F9: without `noAlias` the compiled assignment is not the Spec's
 
 `Cat(t, t).bit_select(o, 1).eq(1)` with `t = 0`, `o = 0`: the Spec (and the testbench, and the netlist)
@@ -107,5 +140,9 @@ example : Prog.listOk exCtx exProg = true := by decide
 example : (Prog.listWrites exCtx exEnv exProg).map (·.2) = [1, 2] := by decide
 example : execRtl exCtx exEnv (lowerList exCtx exProg) exEnv = [2, -3, 5, 7] := by decide
 example : ∀ w ∈ Prog.listWrites exCtx exEnv exProg, w.1.twf exCtx = true := by decide
+/-- the process of that program: commit into the state it started from -/
+example : commitInto exCtx (lowerList exCtx exProg) (execRtl exCtx exEnv (lowerList exCtx exProg) exEnv) exEnv
+    = [2, -3, 5, 7] := by decide
+example : (stmtMask exCtx (lowerList exCtx exProg) [0, 0, 0, 0]) = [0, 0, 15, 15] := by decide
 
 end Amaranth.C02
